@@ -190,6 +190,7 @@ impl Worksheet {
             let max = cols[index].max;
             let custom_width = cols[index].custom_width;
             let width = cols[index].width;
+            let hidden = cols[index].hidden;
             let pre = Col {
                 min,
                 max: column - 1,
@@ -204,7 +205,7 @@ impl Worksheet {
                 width,
                 custom_width,
                 style: None,
-                hidden: false,
+                hidden,
             };
             let post = Col {
                 min: column + 1,
@@ -218,7 +219,7 @@ impl Worksheet {
             if column != max {
                 cols.insert(index, post);
             }
-            if custom_width {
+            if custom_width || hidden {
                 cols.insert(index, col);
             }
             if column != min {
